@@ -83,6 +83,11 @@ func (d *driver) runSqrtCase(w emitter, k int, c *sqrtCase) {
 			"p-2": new(big.Int).Sub(modP, big.NewInt(2)), "5": big.NewInt(5), "h": new(big.Int).Rsh(modP, 1), "g": g, "g2": new(big.Int).Exp(g, big.NewInt(2), modP)}
 		d.sqrtEvent(w, k, "special", m[c.Val])
 		d.pointEvent(w, k, "special", m[c.Val])
+		// ... and once more, every special value, after the point recoveries above (whatever they left behind must not matter)
+		for _, name := range []string{"0", "1", "p-1", "4", "g", "g2", "2", "5"} {
+			d.sqrtEvent(w, k, "special-again", m[name])
+		}
+		d.pointEvent(w, k, "special-again", big.NewInt(0))
 	case "random":
 		for i := 0; i < c.N; i++ {
 			v := rnd.big(300)
